@@ -75,6 +75,19 @@ theorem C08_lexer_api (d : Bytes) :
     (∀ (l : Lexer) (t : Token), l.peekToken = some t ↔ ∃ r, readToken l.data = .ok (t, r)) :=
   ⟨Lexer.run_eq d, Lexer.peekToken_eq⟩
 
+/-- `next_id` and the individual `read_*` primitives agree with `read_token`: the documented
+"zero overhead" loop (`next_id`, then the primitive that belongs to the id) returns the same
+tokens and the same terminal outcome as the `next_token` loop. -/
+theorem C08_lexer_primitives (d : Bytes) :
+    (Lexer.runIds d).1 = (lexAll d).1 ∧ (Lexer.runIds d).2.1 = (lexAll d).2.1 :=
+  Lexer.runIds_eq d
+
+/-- The documented minimal buffer (`usize::from(u16::MAX) + 4 = 65539`) fits every input:
+`read_token` can only say `Eof` on fewer than 65539 bytes.  So the hypothesis `Fits` of the
+streaming theorems holds for every byte string once `cap ≥ 65539`. -/
+theorem C08_fits_of_large (cap : Nat) (hcap : 65539 ≤ cap) (d : Bytes) : Fits cap d :=
+  fits_of_large cap hcap d
+
 /-- `Buffer_refines`: the concrete `BufferWindow` (memory of `cap` bytes, `start`, `end`,
 `prior_reads`) refines the abstract view "position, window contents, undelivered bytes".
 The invariant `Buf.Inv` = `start ≤ end ≤ |mem|` (`|mem| = cap` in builder mode) and
